@@ -156,10 +156,79 @@ def poke_holes(rng, x, allow_inf=True):
     return x, mode
 
 
+def box_history(bx, rng, plt):
+    """call other public methods of a Boxplot on a throw-away figure; returns the op names.
+    Methods that raise are recorded, not judged: only the statistics read afterwards are."""
+    ops = []
+    fig, ax = plt.subplots()
+    try:
+        for k in range(rng.randint(1, 4)):
+            op = rng.choice(["draw", "draw_log"]) if k == 0 else \
+                rng.choice(["draw", "draw_log", "draw_offset", "show_count", "set_ylim", "set_color", "items", "minmax"])
+            try:
+                if op == "draw":
+                    bx.draw(ax=ax)
+                elif op == "draw_log":
+                    bx.draw(ax=ax, logscale=True)
+                elif op == "draw_offset":
+                    bx.draw(ax=ax, xoffset=rng.choice([-0.3, 0.25]))
+                elif op == "show_count":
+                    bx.show_count(ypos=rng.choice([0.025, 0.9]))
+                elif op == "set_ylim":
+                    bx.set_ylim((rng.choice([-5.0, 0.5]), rng.choice([3.0, 1e3])), hide_offlimit_text=rng.random() < 0.5)
+                elif op == "set_color":
+                    bx.set_color(".", "tab:red", alpha=0.3)
+                elif op == "items":
+                    bx.box.width = rng.choice([0.3, 0.9])
+                    bx.box.show_text = True
+                    bx.whiskers.linewidth = 1
+                    bx.caps.width = rng.choice([0.0, 0.5])
+                    if bx.median is not None:
+                        bx.median.show_text = True
+                    if bx.mean is not None:
+                        bx.mean.marker = "*"
+                elif op == "minmax":
+                    bx.minmax.marker = "o"
+                ops.append(op)
+            except Exception as e:
+                ops.append(f"{op}:raised:{type(e).__name__}")
+    finally:
+        plt.close(fig)
+    return ops
+
+
+def violin_history(vl, rng, plt):
+    ops = []
+    fig, ax = plt.subplots()
+    try:
+        for k in range(rng.randint(1, 3)):
+            op = rng.choice(["draw", "draw_ylim", "reset_items", "items"])
+            try:
+                if op == "draw":
+                    vl.draw(ax=ax)
+                elif op == "draw_ylim":
+                    vl.draw(ax=ax, ylim=(rng.choice([-2.0, 0.1]), rng.choice([1.0, 50.0])))
+                elif op == "reset_items":
+                    vl.reset_items()
+                elif op == "items":
+                    vl.median.show_text = False
+                    vl.center.show_text = True
+                    vl.extremes.hatch = "none"
+                ops.append(op)
+            except Exception as e:
+                ops.append(f"{op}:raised:{type(e).__name__}")
+    finally:
+        plt.close(fig)
+    return ops
+
+
 # ------------------------------------------------------------------------------------------------
 def body(ctx):
     warnings.simplefilter("ignore")
     import pandas as pd
+    import matplotlib
+    matplotlib.use("Agg")
+    import matplotlib.pyplot as plt
     from scipy.stats import norm, gaussian_kde
     from hydrodiy.stat import sutils
     from hydrodiy.plot import boxplot, violinplot
@@ -525,56 +594,91 @@ def body(ctx):
             b, w = 50.0, 90.0
             lab = labels(b, w)
         df = pd.DataFrame(colsd, dtype=float)
-        okc, st = guarded("Boxplot(df)", lambda: boxplot.Boxplot(df, box_coverage=b, whiskers_coverage=w).stats,
+        kw = {}
+        with_history = rng.random() < 0.7
+        if with_history:
+            kw = {"style": rng.choice(["default", "default", "narrow"]), "show_mean": rng.random() < 0.4,
+                  "show_median": rng.random() < 0.8, "show_text": rng.random() < 0.4,
+                  "center_text": rng.random() < 0.5, "width_from_count": rng.random() < 0.3}
+        okc, bx = guarded("Boxplot(df)", lambda: boxplot.Boxplot(df, box_coverage=b, whiskers_coverage=w, **kw),
                           {"data": {k: v[:40] for k, v in colsd.items()}, "box_coverage": b, "whiskers_coverage": w})
         if not okc:
             continue
-        for cn, x in colsd.items():
-            case = {"data": x if n <= 40 else x[:40] + ["..."], "n": n, "box_coverage": b, "whiskers_coverage": w, "via": "Boxplot(df).stats"}
-            if n == 0:
-                if st.shape[0] != 0:
-                    ctx.finding("Boxplot.stats/empty_frame", "statistics given for an empty frame", case)
-                continue
-            cnt, row = box_row(st[cn], lab)
-            add(f"box {C.f2h(b)} {C.f2h(w)} {C.flist(x)}", "box", (cnt, row), case)
-            ctx.count(("boxdf", b, w, tuple(C.f2h(v) for v in x)), cnt > 3, "Boxplot(df).stats/" + ("<4" if cnt < 4 else "4+"))
-            box_oracle("Boxplot.stats/columns", x, b, w, cnt, row, case)
+
+        def check_df(st, via, tag):
+            for cn, x in colsd.items():
+                case = {"data": x if n <= 40 else x[:40] + ["..."], "n": n, "box_coverage": b, "whiskers_coverage": w, "via": via}
+                if n == 0:
+                    if st.shape[0] != 0:
+                        ctx.finding("Boxplot.stats/empty_frame", "statistics given for an empty frame", case)
+                    continue
+                if cn not in st.columns or "count" not in st.index:
+                    ctx.finding(f"{tag}/column_missing", "a data column (or its count) is missing from Boxplot(...).stats", case)
+                    continue
+                cnt, row = box_row(st[cn], lab)
+                add(f"box {C.f2h(b)} {C.f2h(w)} {C.flist(x)}", "box", (cnt, row), case)
+                ctx.count(("boxdf", via, b, w, tuple(C.f2h(v) for v in x)), cnt > 3, via.split(" after ")[0] + ("/after_methods" if " after " in via else "") + ("/<4" if cnt < 4 else "/4+"))
+                box_oracle(tag, x, b, w, cnt, row, case)
+
+        check_df(bx.stats, "Boxplot(df).stats", "Boxplot.stats/columns")
+        if with_history and n > 0:
+            ops = box_history(bx, rng, plt)
+            for o in ops:
+                ctx.hist["Boxplot.method/" + o] = ctx.hist.get("Boxplot.method/" + o, 0) + 1
+            check_df(bx.stats, "Boxplot(df).stats after " + ",".join(ops), "Boxplot.stats/columns/after_methods")
 
     # ---- Boxplot(x, by=...).stats : group-wise == each group taken alone
-    def by_case(x, cats, b, w, tag, known_collision=False):
+    def by_case(x, cats, b, w, tag, history=False):
+        """returns [(impl, case), ...]: one entry right after construction and, with `history`, one more after
+        other public methods of the same object were called"""
         lab = labels(b, w)
         xa = np.array(x, dtype=float)
         case = {"data": x if len(x) <= 40 else x[:40] + ["..."], "by": cats if len(cats) <= 40 else cats[:40] + ["..."],
                 "box_coverage": b, "whiskers_coverage": w}
-        okc, st = guarded("Boxplot(by)", lambda: boxplot.Boxplot(xa, by=np.array(cats), box_coverage=b, whiskers_coverage=w).stats, case)
+        kw = {}
+        if history:
+            kw = {"style": rng.choice(["default", "default", "narrow"]), "show_mean": rng.random() < 0.4,
+                  "show_text": rng.random() < 0.4, "width_from_count": rng.random() < 0.3}
+        okc, bx = guarded("Boxplot(by)", lambda: boxplot.Boxplot(xa, by=np.array(cats), box_coverage=b, whiskers_coverage=w, **kw), case)
         if not okc:
-            return None, case
+            return []
         groups = sorted(set(cats))
-        impl = []
-        for g in groups:
-            alone = boxplot.boxplot_stats(xa[np.array(cats) == g], b, w)
-            cnt_a, row_a = box_row(alone, lab)
-            if g not in st.columns:
-                ctx.finding(f"{tag}/group_missing", "a category has no column in Boxplot(...).stats", {**case, "group": g})
-                continue
-            col = st[g]
-            if len(set(lab)) == 5:
-                cnt, row = box_row(col, lab)
-            else:
-                # colliding labels: pivot_table has merged rows; read what is there by label
-                cnt = int(col["count"])
-                row = [float(col[name]) if name in col.index else float("nan") for name in lab] + \
-                      [float(col[name]) if name in col.index else float("nan") for name in ("mean", "max", "min")]
-            impl.append((g, cnt, row))
-            same = cnt == cnt_a and all((p != p and q != q) or p == q for p, q in zip(row, row_a))
-            if not same:
-                sig = f"{tag}/percentile_label_collision" if len(set(lab)) < 5 else f"{tag}/group_differs_from_group_alone"
-                ctx.finding(sig, "group-wise statistics differ from those of the group taken alone"
-                            + (" (two percentile levels print to the same one-decimal label and pivot_table averages them)" if len(set(lab)) < 5 else ""),
-                            {**case, "group": g, "grouped": row, "alone": row_a, "labels": lab})
-            if len(set(lab)) == 5:
-                box_oracle(tag, [v for v, c in zip(x, cats) if c == g], b, w, cnt, row, {**case, "group": g})
-        return impl, case
+
+        def read(st, tag, case):
+            impl = []
+            for g in groups:
+                alone = boxplot.boxplot_stats(xa[np.array(cats) == g], b, w)
+                cnt_a, row_a = box_row(alone, lab)
+                if g not in st.columns or "count" not in st.index:
+                    ctx.finding(f"{tag}/group_missing", "a category has no column in Boxplot(...).stats", {**case, "group": g})
+                    continue
+                col = st[g]
+                if len(set(lab)) == 5:
+                    cnt, row = box_row(col, lab)
+                else:
+                    # colliding labels: pivot_table has merged rows; read what is there by label
+                    cnt = int(col["count"])
+                    row = [float(col[name]) if name in col.index else float("nan") for name in lab] + \
+                          [float(col[name]) if name in col.index else float("nan") for name in ("mean", "max", "min")]
+                impl.append((g, cnt, row))
+                same = cnt == cnt_a and all((p != p and q != q) or p == q for p, q in zip(row, row_a))
+                if not same:
+                    sig = f"{tag}/percentile_label_collision" if len(set(lab)) < 5 else f"{tag}/group_differs_from_group_alone"
+                    ctx.finding(sig, "group-wise statistics differ from those of the group taken alone"
+                                + (" (two percentile levels print to the same one-decimal label and pivot_table averages them)" if len(set(lab)) < 5 else ""),
+                                {**case, "group": g, "grouped": row, "alone": row_a, "labels": lab})
+                if len(set(lab)) == 5:
+                    box_oracle(tag, [v for v, c in zip(x, cats) if c == g], b, w, cnt, row, {**case, "group": g})
+            return impl
+
+        out = [(read(bx.stats, tag, case), case)]
+        if history:
+            ops = box_history(bx, rng, plt)
+            for o in ops:
+                ctx.hist["Boxplot.method/" + o] = ctx.hist.get("Boxplot.method/" + o, 0) + 1
+            case2 = {**case, "after_methods": ops}
+            out.append((read(bx.stats, tag + "/after_methods", case2), case2))
+        return out
 
     for it in range(ctx.scale(180, 1200)):
         n = rng.choice([2, 5, 9, 20, 60, rng.randint(2, ctx.scale(300, 600))])
@@ -592,14 +696,12 @@ def body(ctx):
         b, w = cov_pair()
         if len(set(labels(b, w))) < 5:
             b, w = 50.0, 90.0
-        impl, case = by_case(x, cats, b, w, "Boxplot.stats/by")
-        if impl is None:
-            continue
-        add(f"boxby {C.f2h(b)} {C.f2h(w)} {C.ilist(cats)} {C.flist(x)}", "boxby", impl, case)
         sizes_g = sorted(cats.count(g) for g in set(cats))
-        ctx.count(("boxby", b, w, tuple(cats), tuple(C.f2h(v) for v in x)), any(c > 3 for (_, c, _) in impl),
-                  f"Boxplot(by).stats/{len(set(cats))}cats/" + ("unequal" if sizes_g[0] != sizes_g[-1] else "equal"),
-                  sample={"op": "Boxplot(by).stats", "by": cats[:10], "data": x[:10], "groups": [(g, c) for g, c, _ in impl]})
+        for k, (impl, case) in enumerate(by_case(x, cats, b, w, "Boxplot.stats/by", history=rng.random() < 0.7)):
+            add(f"boxby {C.f2h(b)} {C.f2h(w)} {C.ilist(cats)} {C.flist(x)}", "boxby", impl, case)
+            ctx.count(("boxby", k, b, w, tuple(cats), tuple(C.f2h(v) for v in x)), any(c > 3 for (_, c, _) in impl),
+                      f"Boxplot(by).stats/{len(set(cats))}cats/" + ("unequal" if sizes_g[0] != sizes_g[-1] else "equal") + ("/after_methods" if k else ""),
+                      sample={"op": "Boxplot(by).stats", "by": cats[:10], "data": x[:10], "groups": [(g, c) for g, c, _ in impl]})
     # one category only is rejected
     try:
         boxplot.Boxplot(np.arange(6.), by=np.zeros(6, dtype=int))
@@ -695,6 +797,23 @@ def body(ctx):
                 if len(fin) >= 3 and min(fin) < max(fin):
                     ctx.finding("Violin.kde/profile_missing", "no density profile for a non-constant column with 3+ finite values", case)
                 add(f"vgrid {C.f2h(1e-10)} {npts} [] {C.flist(x)}", "vgrid_none", "none", case)
+        # ---- the summaries must still be the sample statistics after other public methods were called
+        if st.shape[0] == 5 and n > 0 and rng.random() < 0.7:
+            ops = violin_history(vl, rng, plt)
+            for o in ops:
+                ctx.hist["Violin.method/" + o] = ctx.hist.get("Violin.method/" + o, 0) + 1
+            st2, kx2, ky2 = vl.stats, vl.kde_x, vl.kde_y
+            for cn, x in colsd.items():
+                case = {"data": x if n <= 40 else x[:40] + ["..."], "n": n, "npoints_kde": npts, "after_methods": ops}
+                same = st2.shape == st.shape and kx2.shape == kx.shape and ky2.shape == ky.shape and all(
+                    np.array_equal(np.asarray(a[cn], dtype=float), np.asarray(c[cn], dtype=float), equal_nan=True)
+                    for a, c in ((st, st2), (kx, kx2), (ky, ky2)))
+                if not same:
+                    ctx.finding("Violin/summaries_changed_by_methods", "Violin stats / kde_x / kde_y differ after draw / reset_items / item setters were called",
+                                {**case, "stats_before": [float(v) for v in st[cn]], "stats_after": [float(v) for v in st2[cn]] if cn in st2.columns else None})
+                elif st2.shape[0] == 5:
+                    add(f"vstats {C.flist(x)}", "vstats", [float(st2[cn].iloc[r]) for r in range(5)], case)
+                    ctx.count(("violin_after", npts, tuple(ops), tuple(C.f2h(v) for v in x)), True, "Violin/after_methods")
 
     # ---------------- correspondence, first batch
     replies = lean.ask(reqs)
